@@ -1,5 +1,6 @@
 import Drivers.Wire
-import Model.DumpPareto
+import Model.TableSpec
+import Model.DumpText
 
 /-!
 Driver for C04 (and the shared dump part of C06).
@@ -14,10 +15,16 @@ Values: `{"n":"num/den"}` number, `{"nf":"nan"|"inf"|"-inf"}`, `{"s":"text"}`, `
   state / table so far, the final table and the `pareto_efficient` column.
   An op may also be `[count,flush,order]` (the Pareto step runs after this dump: end of a
   `search()` call) or `{"new_search":"fresh"|"reuse"}` (a new `Search` object is constructed on
-  the log_dir with a fresh evaluator / the previous evaluator instance: `searchInit`).
+  the log_dir with a fresh evaluator / the previous evaluator instance: `searchInit`; with
+  `"early":true` the object was constructed before the file existed: `searchInitEarly`).
+  With `"want_text":true` and `"numtext":[[rat,text]..]` every dump step also returns the bytes of
+  the file so far (`fileText`).
+* `{"op":"csvparse","text":T}` / `{"op":"csvrender","rows":[[T..]..]}` : the CSV text layer.
+* `{"op":"check_table","tol":rat,"hdr":[names],"rows":[[{"t":text,"q":rat|null}..]..],"jobs":[..],"preset":..}`
+  -> `checkTable` (theorem `C04_checker`) on the real file content.
 -/
 
-open Lean DH.Wire DH.Dump
+open Lean DH.Wire DH.Dump DH.Csv
 
 partial def jVal (j : Json) : Except String Val := do
   match j with
@@ -99,6 +106,53 @@ def jOptNat (j : Json) : Except String (Option Nat) :=
   | .null => .ok none
   | _ => do return some (← j.getNat?)
 
+/-- jobs of a request: `set_output` + `_on_done`; malformed outputs are reported and dropped -/
+def buildJobs (jobsJ : Array Json) : Except String (List JobRec × List Json) := do
+  let mut jobs : List JobRec := []
+  let mut jobOut : List Json := []
+  for jj in jobsJ.toList do
+    let id ← (← field jj "id").getNat?
+    let args ← jDict (← field jj "args")
+    let status ← jStatus (← field jj "status")
+    let meta0 ← jDict (← field jj "meta0")
+    let out ← jVal (← field jj "out")
+    let tg ← jVal (← field jj "tg")
+    match setOutput id args status meta0 out with
+    | .error e => jobOut := jobOut ++ [Json.mkObj [("err", errName e)]]
+    | .ok r =>
+      let r' := onDone tg r
+      jobs := jobs ++ [r']
+      jobOut := jobOut ++ [Json.mkObj [("err", Json.null), ("objective", ofVal r'.objective),
+        ("status", r'.status.name), ("meta", ofDict r'.md)]]
+  return (jobs, jobOut)
+
+/-- how Python printed the numbers of this request (`str(value)`), given by the harness -/
+def mkFmt (tbl : List (Rat × String)) : Val → Text
+  | .num q => match tbl.find? (fun p => p.1 == q) with
+    | some p => p.2.toList
+    | none => "?".toList
+  | .nonfin .nan => "nan".toList
+  | .nonfin .posInf => "inf".toList
+  | .nonfin .negInf => "-inf".toList
+  | _ => "?".toList
+
+/-- parse of a header name into a column (untrusted: `checkTable` re-renders and compares) -/
+def parseCol (s : String) : Option Col :=
+  if s == "objective" then some .objective
+  else if s == "job_id" then some .jobId
+  else if s == "job_status" then some .jobStatus
+  else if s.startsWith "p:" then some (.param (String.ofList (s.toList.drop 2)))
+  else if s.startsWith "m:" then some (.mdata (String.ofList (s.toList.drop 2)))
+  else if s.startsWith "objective_" then (String.ofList (s.toList.drop 10)).toNat?.map Col.objectiveI
+  else none
+
+def jCellIn (j : Json) : Except String CellIn := do
+  let t ← (← field j "t").getStr?
+  let q ← match fieldD j "q" Json.null with
+    | .null => pure none
+    | v => do pure (some (← jRat v))
+  return { text := t, num := q }
+
 def handle (j : Json) : Except String Json := do
   let op ← (← field j "op").getStr?
   match op with
@@ -112,23 +166,14 @@ def handle (j : Json) : Except String Json := do
   | "scenario" =>
     let preset ← jOptNat (fieldD j "preset" Json.null)
     let old := (fieldD j "old" (Json.bool false)).getBool?.toOption.getD false
-    let jobsJ ← (← field j "jobs").getArr?
-    let mut jobs : List JobRec := []
-    let mut jobOut : List Json := []
-    for jj in jobsJ.toList do
-      let id ← (← field jj "id").getNat?
-      let args ← jDict (← field jj "args")
-      let status ← jStatus (← field jj "status")
-      let meta0 ← jDict (← field jj "meta0")
-      let out ← jVal (← field jj "out")
-      let tg ← jVal (← field jj "tg")
-      match setOutput id args status meta0 out with
-      | .error e => jobOut := jobOut ++ [Json.mkObj [("err", errName e)]]
-      | .ok r =>
-        let r' := onDone tg r
-        jobs := jobs ++ [r']
-        jobOut := jobOut ++ [Json.mkObj [("err", Json.null), ("objective", ofVal r'.objective),
-          ("status", r'.status.name), ("meta", ofDict r'.md)]]
+    let (jobs, jobOut) ← buildJobs (← (← field j "jobs").getArr?)
+    let numtext ← jList (fun e => do
+      let p ← e.getArr?
+      match p.toList with
+      | [q, t] => return ((← jRat q), (← t.getStr?))
+      | _ => throw "bad numtext") (fieldD j "numtext" (Json.arr #[]))
+    let fmt := mkFmt numtext
+    let wantText := (fieldD j "want_text" (Json.bool false)).getBool?.toOption.getD false
     let opsJ ← (← field j "ops").getArr?
     let mut st : DumpState := { DumpState.fresh with numObjective := preset }
     let mut tbl : Table := Table.empty
@@ -148,7 +193,12 @@ def handle (j : Json) : Except String Json := do
           | "reuse" => pure EvalChoice.reuse
           | x => throw s!"bad evaluator choice {x}"
         let noReset := (fieldD oj "no_reset" (Json.bool false)).getBool?.toOption.getD false
-        let r := if noReset then searchInitNoReset ch st tbl else searchInit ch st tbl
+        let early := (fieldD oj "early" (Json.bool false)).getBool?.toOption.getD false
+        -- "no_file": the Search is constructed on a directory without results.csv (another log_dir)
+        if (fieldD oj "no_file" (Json.bool false)).getBool?.toOption.getD false then
+          tbl := Table.empty
+        let r := if early then searchInitEarly st tbl
+          else if noReset then searchInitNoReset ch st tbl else searchInit ch st tbl
         st := r.1
         tbl := r.2
         steps := steps ++ [Json.mkObj [("branch", "new-search"), ("header", Json.null), ("rows", ofRows []),
@@ -175,6 +225,7 @@ def handle (j : Json) : Except String Json := do
           ("rows", ofRows r.2.rows), ("started", st.started), ("numObjective", ofOptNat st.numObjective),
           ("pending", Json.num (JsonNumber.fromNat st.pending.length)),
           ("table", Json.mkObj [("header", ofHeader tbl.header), ("rows", ofRows tbl.rows)]),
+          ("text", if wantText then Json.str (String.ofList (fileText fmt tbl)) else Json.null),
           ("pareto", par)]]
       | _ => throw "bad op"
     let order ← match j.getObjVal? "order" with
@@ -184,6 +235,30 @@ def handle (j : Json) : Except String Json := do
     return Json.mkObj [("ok", true), ("jobs", Json.arr jobOut.toArray), ("steps", Json.arr steps.toArray),
       ("table", Json.mkObj [("header", ofHeader tbl.header), ("rows", ofRows tbl.rows)]),
       ("pareto", par)]
+  | "csvparse" =>
+    -- `csv.reader` on a text
+    let t ← (← field j "text").getStr?
+    let rows := parseFile t.toList
+    return Json.mkObj [("ok", true), ("rows",
+      Json.arr (rows.map (fun r => Json.arr (r.map (fun c => Json.str (String.ofList c))).toArray)).toArray)]
+  | "csvrender" =>
+    -- `csv.writer.writerows` on cells
+    let rows ← jList (jList jStr) (← field j "rows")
+    return Json.mkObj [("ok", true),
+      ("text", Json.str (String.ofList (renderFile (rows.map (fun r => r.map String.toList)))))]
+  | "check_table" =>
+    -- the verified checker (theorem C04_checker) on the real file content
+    let preset ← jOptNat (fieldD j "preset" Json.null)
+    let (jobs, _) ← buildJobs (← (← field j "jobs").getArr?)
+    let hdr ← jList jStr (← field j "hdr")
+    let rows ← jList (jList jCellIn) (← field j "rows")
+    let tol ← jRat (← field j "tol")
+    let n := inferNumObjective preset jobs
+    match hdr.mapM parseCol with
+    | none => return Json.mkObj [("ok", true), ("check", false), ("why", "a header name is not a column name")]
+    | some cols =>
+      return Json.mkObj [("ok", true), ("check", checkTable tol cols hdr rows jobs n),
+        ("cols_ok", decide (cols.map Col.name = hdr)), ("arity", ofOptNat n)]
   | "pareto_check" =>
     -- verified checker of C11 on the implementation's flags: pts = negated successful objectives
     let pts ← jList (jList jRat) (← field j "pts")
